@@ -241,3 +241,8 @@ fn test_samples_le() {
 fn test_samples_be() {
     test_endianness::<bitstream_io::BigEndian, BigEndian>()
 }
+
+// verification hook: inert unless built by `cargo kani` (cfg(kani)); see /verif/DESIGN.md
+#[cfg(kani)]
+#[path = "/verif/harness/byteorder.rs"]
+mod verif_k;
